@@ -1054,10 +1054,12 @@ lp_upolynomial_t* lp_upolynomial_gcd(const lp_upolynomial_t* p, const lp_upolyno
 
   lp_upolynomial_t* gcd = 0;
 
-  if (lp_upolynomial_is_zero(p)) {
-    gcd = lp_upolynomial_construct_copy(q);
-  } else if (lp_upolynomial_is_zero(q)) {
-    gcd = lp_upolynomial_construct_copy(p);
+  if (lp_upolynomial_is_zero(p) || lp_upolynomial_is_zero(q)) {
+    // gcd(p, 0) = p, monic over a field
+    gcd = lp_upolynomial_construct_copy(lp_upolynomial_is_zero(p) ? q : p);
+    if (gcd->K != lp_Z && !lp_upolynomial_is_zero(gcd)) {
+      lp_upolynomial_make_monic_in_place(gcd);
+    }
   } else if (lp_upolynomial_degree(p) < lp_upolynomial_degree(q)) {
     gcd = lp_upolynomial_gcd(q, p);
   } else {
